@@ -281,5 +281,3 @@ func printResult(r *HarnessResult, verbose bool) {
 		fmt.Printf("      contracts used: %s\n", strings.Join(r.UsedCtr, ", "))
 	}
 }
-
-func cmdSelftest(argv []string) int { fmt.Println("selftest: not yet implemented"); return 2 }
